@@ -6,10 +6,12 @@ package main
 //   mxjverif -prop C07 -replay file.case -driver <mxjdriver>
 
 import (
+	"bufio"
 	"encoding/json"
 	"flag"
 	"fmt"
 	"os"
+	"strings"
 )
 
 func main() {
@@ -22,6 +24,7 @@ func main() {
 	replay := flag.String("replay", "", "replay one stored case file")
 	mult := flag.Int("mult", 1, "multiply the number of generated cases (search phase)")
 	nOverride := flag.Int("n", 0, "override the number of generated cases")
+	execOps := flag.String("execops", "", "child mode: run the ops of this file, print one observation per line")
 	flag.Parse()
 
 	initOptions()
@@ -34,6 +37,14 @@ func main() {
 	if !ok {
 		fmt.Fprintf(os.Stderr, "harness: unknown property %q\n", *prop)
 		os.Exit(3)
+	}
+	if *execOps != "" {
+		w := bufio.NewWriter(os.Stdout)
+		for _, op := range readOps(*execOps) {
+			fmt.Fprintln(w, "="+strings.ReplaceAll(safeExec(p, op), "\n", " "))
+			w.Flush()
+		}
+		return
 	}
 	if *replay != "" {
 		ops := readOps(*replay)
